@@ -171,6 +171,44 @@ def const_table(crate, path):
         return None
 
 
+_gc_cache = {}
+
+
+def unic_general_category():
+    """rows [(lo, hi, abbreviation)] and predicates {is_x: set of abbreviations} of the unic-ucd-category version named by the lock file, read from the
+    dependency's source in the cargo registry (tables/general_category.rsv, src/category.rs); code points not listed are Cn."""
+    from sa import views
+    repo = views.REPO
+    if repo in _gc_cache:
+        return _gc_cache[repo]
+    res = None
+    try:
+        lock = open(os.path.join(repo, "Cargo.lock")).read()
+        m = re.search(r'name = "unic-ucd-category"\nversion = "([^"]+)"', lock)
+        ver = m.group(1)
+        import glob
+        dirs = sorted(glob.glob(os.path.expanduser("~/.cargo/registry/src/*/unic-ucd-category-%s" % ver)))
+        d = dirs[0]
+        rows = []
+        for mm in re.finditer(r"chars!\('\\u\{([0-9a-f]+)\}'\.\.='\\u\{([0-9a-f]+)\}'\), (\w+)\)", open(os.path.join(d, "tables", "general_category.rsv")).read()):
+            rows.append((int(mm.group(1), 16), int(mm.group(2), 16), mm.group(3)))
+        src = open(os.path.join(d, "src", "category.rs")).read()
+        preds = {}
+        for mm in re.finditer(r"pub fn (is_\w+)\(&self\) -> bool \{\s*(?:use [^;]+;\s*)?matches!\(\*self, ([^)]+)\)", src):
+            preds[mm.group(1)] = {x.strip() for x in mm.group(2).split("|")}
+        # unlisted code points are Unassigned (Cn)
+        listed = tables.normalize([(lo, hi) for lo, hi, _ in rows])
+        for lo, hi in tables.complement(listed, scalar_only=False):
+            rows.append((lo, hi, "Cn"))
+        uv = re.search(r"major: (\d+),\s*minor: (\d+)", open(os.path.join(d, "tables", "unicode_version.rsv")).read())
+        if len(rows) > 1000 and len(preds) >= 5:
+            res = {"rows": rows, "predicates": preds, "crate_version": ver, "unicode_version": "%s.%s" % (uv.group(1), uv.group(2)) if uv else "?"}
+    except Exception:
+        res = None
+    _gc_cache[repo] = res
+    return res
+
+
 def regex_oracle_tables(ctx, prog, rid):
     """token -> (const path, normalized interval set) of the table regex-syntax compiles for \\d \\s \\w."""
     rs = prog.crate("regex_syntax.lib")
@@ -277,6 +315,7 @@ def predicate_table(ctx, crate, pred_path, rid):
                       "predicate's closure is not `|range| range.contains(c)` with c the predicate's parameter (inclusive CharRange::contains)", b.loc())
         return None
     # extra conditions on the membership path: only a bounding check implied by the (sorted) table is accepted
+    extra_conjuncts = []
     for atom, val in ml.label:
         mm = re.match(r"^std::ops::Range(Inclusive)?::<Idx>::contains\(std::ops::Range(?:Inclusive)?::Range(?:Inclusive)?\((.*)\), c\)$", atom)
         if mm and val == "True":
@@ -292,8 +331,43 @@ def predicate_table(ctx, crate, pred_path, rid):
                               "although regex's class contains it", b.loc())
                 return None
             continue
+        gm = re.match(r"^unic_ucd_category::GeneralCategory::(is_\w+)\((?:&)?unic_ucd_category::GeneralCategory::of\(c\)\)$", atom)
+        if gm:
+            extra_conjuncts.append((gm.group(1), val == "True", atom))
+            continue
         ctx.undecided(rid, pred_path, "membership is additionally conditioned on %s == %s" % (atom[:160], val), b.loc())
         return None
+    if extra_conjuncts:
+        # a second data source in front of the table: decided by evaluating it on every member of the table (the dependency's own table and
+        # predicates, read from the locked version's source files)
+        tpath0 = _static_table(ctx, crate, pred_path, static_path, rid, b, {"idiom": "any(range.contains(c)) behind a category pre-filter"})
+        if tpath0 is None:
+            return None
+        tab = const_table(crate, tpath0)
+        gc = unic_general_category()
+        if tab is None or gc is None:
+            ctx.undecided(rid, pred_path, "membership is additionally conditioned on %s and the dependency's category table could not be read" % extra_conjuncts[0][2][:120], b.loc())
+            return None
+        members = tables.normalize(tab)
+        for fn, truth, atom in extra_conjuncts:
+            cats = gc["predicates"].get(fn)
+            if cats is None:
+                ctx.undecided(rid, pred_path, "unknown category predicate %s" % fn, b.loc())
+                return None
+            sel = tables.normalize([(lo, hi) for lo, hi, cat in gc["rows"] if cat in cats])
+            if not truth:
+                sel = tables.complement(sel)
+            lost = tables.difference(members, sel)
+            if tables.count(lost):
+                ctx.violation(rid, (pred_path, "pre-filter " + fn), "membership in the table is additionally conditioned on GeneralCategory::%s (unic-ucd-category %s, Unicode %s): "
+                              "%d member(s) of the table fail it (first: %s) and are reported as not in the class, although the engine's class contains them"
+                              % (fn, gc["crate_version"], gc["unicode_version"], tables.count(lost), tables.fmt_cp(lost[0][0])), b.loc())
+                return None
+        for l in rest:
+            if not (l.kind == "return" and isinstance(l.value, ccp.Const) and l.value.v is False):
+                ctx.undecided(rid, pred_path, "a path returns %s" % ccp.show(l.value)[:100], b.loc())
+                return None
+        return tpath0
     for l in rest:
         if not (l.kind == "return" and isinstance(l.value, ccp.Const) and l.value.v is False):
             ctx.undecided(rid, pred_path, "a path returns %s" % ccp.show(l.value)[:100], b.loc())
@@ -824,6 +898,12 @@ def def1(ctx, crate, rid="DEF-1"):
     from sa import guards
     cons = [b for b in crate.bodies if b.kind == "assoc_fn" and b.arg_count == 0 and b.sig_output == CONFIG
             and (not (b.derived or b.impl_trait) or guards.call_sites(crate, b.path))]
+    all_prod = [b for b in crate.bodies if b.kind == "assoc_fn" and b.arg_count == 0 and b.sig_output == CONFIG]
+    # a producer that other producers delegate to is in use even if nothing else calls it
+    for b in list(cons):
+        r0 = local.peel(local.Defs(b).local(0))
+        if r0[0] == "call" and not r0[2]:
+            cons += [c for c in all_prod if c.path == r0[1] and c not in cons]
     if not ctx.floor(rid, "argument-less constructors of the settings type", len([b for b in cons if not b.derived]), 1):
         return
     adt = crate.adts.get(CONFIG)
@@ -838,6 +918,9 @@ def def1(ctx, crate, rid="DEF-1"):
         return v
     for b in cons:
         r = local.peel(local.Defs(b).local(0))
+        if r[0] == "call" and not r[2] and any(r[1] == c.path for c in all_prod if c is not b):
+            ctx.ok(rid, "%s:delegates to %s" % (b.path, r[1]), None, b.loc())
+            continue
         if not (r[0] == "agg" and r[1] == "adt" and len(r[3]) == len(names)):
             ctx.undecided(rid, b.path, "the constructor does not return one struct literal", b.loc())
             continue
@@ -853,3 +936,34 @@ def def1(ctx, crate, rid="DEF-1"):
                           "as if the option had been requested%s" % ("; ".join(bad), (" (used by %s)" % ", ".join(users)) if users else ""), b.loc())
         else:
             ctx.ok(rid, b.path, {"fields": len(names)}, b.loc())
+    # settings literals elsewhere (e.g. `RegExpConfig { minimum_repetitions: 0, ..RegExpConfig::new() }` in a builder constructor)
+    prod = {b.path for b in cons}
+    for b in crate.bodies:
+        if b.derived or b.from_expansion or b.path in prod:
+            continue
+        d = None
+        for bi, blk in b.iter_blocks():
+            for st in blk["stmts"]:
+                if not (st["k"] == "assign" and st["rv"]["k"] == "aggregate" and st["rv"].get("agg") == "adt" and norm(st["rv"].get("adt") or "") == CONFIG):
+                    continue
+                d = d or local.Defs(b)
+                r = d.rvalue(st["rv"])
+                bad, unk = [], []
+                for nme, ty, op in zip(names, tys, r[3]):
+                    o = local.peel(op)
+                    v = value(op, ty)
+                    want = False if ty == "bool" else 1
+                    if v is not None:
+                        if v != want or (ty == "bool") != isinstance(v, bool):
+                            bad.append("%s = %s (documented default: %s)" % (nme, v, want))
+                    elif o[0] == "field" and o[1] == nme:
+                        continue        # copied from another settings value (functional update)
+                    else:
+                        unk.append(nme)
+                if bad:
+                    ctx.violation(rid, (b.path, "settings literal"), "a settings value is built with %s outside the settings constructor: builds from this constructor start from other "
+                                  "defaults than builds from the others" % "; ".join(bad), b.loc(st.get("line")))
+                elif unk:
+                    ctx.undecided(rid, b.path, "settings literal with computed fields %s" % unk, b.loc(st.get("line")))
+                else:
+                    ctx.ok(rid, b.path + ":settings literal", None, b.loc(st.get("line")))
